@@ -163,8 +163,8 @@ func c34NewWorld(f c34Fork) *c34World {
 	w.e = crypto.PubkeyToAddress(c34KeyE.PublicKey)
 	s1, s2, s3 := c34Slots()
 
-	// S: calldatasize%64 == 32: SLOAD(cd[0]); otherwise for every (key,value) pair in calldata SSTORE(key,value).
-	sRead := program.New().Push(0).Op(vm.CALLDATALOAD, vm.SLOAD, vm.POP, vm.STOP).Bytes()
+	// S: calldatasize%64 == 32: return SLOAD(cd[0]); otherwise for every (key,value) pair in calldata SSTORE(key,value).
+	sRead := program.New().Push(0).Op(vm.CALLDATALOAD, vm.SLOAD).Push(0).Op(vm.MSTORE).Return(0, 32).Bytes()
 	sLoop := func(base int) []byte {
 		// i on the stack
 		p := program.New().Push(0)
@@ -230,6 +230,7 @@ func c34NewWorld(f c34Fork) *c34World {
 		{"BALANCE_X", store0(program.New().Push(c34X).Op(vm.BALANCE)), false},
 		{"CREATE2", store0(program.New().Create2(initK, 5)), true},
 		{"BLOCKHASH", store0(program.New().Push(1).Op(vm.NUMBER, vm.SUB, vm.BLOCKHASH)), false},
+		{"READ_S_VIA_CALL", store0(program.New().Mstore(c34Word(s2), 0).Call(nil, c34S, 0, 0, 32, 0, 32).Op(vm.POP).Push(0).Op(vm.MLOAD)), true},
 		{"READ_S_REVERT", program.New().Mstore(c34Word(s2), 0).Call(nil, c34S, 0, 0, 32, 0, 0).Op(vm.POP).Push(0).Push(0).Op(vm.REVERT).Bytes(), false},
 	}
 	var units []c34Unit
@@ -471,6 +472,9 @@ func c34CheckBlock(r *mc.R, w *c34World, bc *BlockChain, sel []int, names []stri
 			st += fmt.Sprint(rc.Status)
 		}
 		r.Outcome("block:" + w.fork.name + ":statuses=" + st)
+		if len(sel) == 1 && st == "0" {
+			r.Outcome("failing-unit:" + w.fork.name + ":" + names[0])
+		}
 		res, err := bc.ProcessBlock(ctx, bc.Genesis().Root(), block, ExecuteConfig{MakeWitness: true})
 		if err != nil {
 			return fmt.Errorf("full execution with witness collection failed: %v", err)
